@@ -166,11 +166,19 @@ where
     ComputeFunction: FnMut(&mut Tree, NodeId, LayoutInput) -> LayoutOutput,
 {
     debug_push_node!(node);
+    #[cfg(taffy_verif)]
+    crate::verif_hooks::enter();
     let LayoutInput { known_dimensions, available_space, run_mode, .. } = inputs;
 
     // First we check if we have a cached result for the given input
+    #[cfg(taffy_verif)]
+    crate::verif_hooks::set_current_input(Some(inputs));
     let cache_entry = tree.cache_get(node, known_dimensions, available_space, run_mode);
+    #[cfg(taffy_verif)]
+    crate::verif_hooks::set_current_input(None);
     if let Some(cached_size_and_baselines) = cache_entry {
+        #[cfg(taffy_verif)]
+        crate::verif_hooks::exit(node, &inputs, &cached_size_and_baselines, crate::verif_hooks::QueryKind::Hit);
         debug_log_node!(known_dimensions, inputs.parent_size, available_space, run_mode, inputs.sizing_mode);
         debug_log!("RESULT (CACHED)", dbg:cached_size_and_baselines.size);
         debug_pop_node!();
@@ -182,7 +190,14 @@ where
     let computed_size_and_baselines = compute_uncached(tree, node, inputs);
 
     // Cache result
+    #[cfg(taffy_verif)]
+    crate::verif_hooks::set_current_input(Some(inputs));
     tree.cache_store(node, known_dimensions, available_space, run_mode, computed_size_and_baselines);
+    #[cfg(taffy_verif)]
+    {
+        crate::verif_hooks::set_current_input(None);
+        crate::verif_hooks::exit(node, &inputs, &computed_size_and_baselines, crate::verif_hooks::QueryKind::Miss);
+    }
 
     debug_log!("RESULT", dbg:computed_size_and_baselines.size);
     debug_pop_node!();
